@@ -340,6 +340,25 @@ def checkMapsX (args res : List String) : Except String (Findings × String) := 
           f := f ++ [if m0.isEmpty then "violation isectbu-language" else "mismatch prefilled-isectbu language (inside pmapOkB: C02_isectBU_prefilled_lang)"]
     pure (f, s!"mapsx={mode} mapok={bchar ok0} prefillok={bchar pf} prefilled={m0.length}")
 
+/-- `ownalpha`: an automaton loaded from text into an automaton with its OWN alphabet; the result of every operation, dumped and read back by
+symbol NAME, must denote what the operation promises (C13: "for every automaton …, dumping it and loading the text again yields the same
+rules"; C19: "A is equivalent to its dumped-and-reloaded form").  `EXC` = the dump throws, `BADNAME` = it prints a symbol name the input
+never had – both are failing inputs. -/
+def checkOwnAlpha (args res : List String) : Except String (Findings × String) := do
+  let A ← getE (args[0]? >>= parseTA?) "bad A"
+  let mut f : Findings := []
+  for key in ["A0", "copy", "useless", "unreach", "union", "isect", "isectbu", "reduce", "cand"] do
+    let v ← kvE res key
+    if v == "EXC" then f := f ++ [s!"violation the dump of {key}(A) throws when A carries its own alphabet"]
+    else if v == "BADNAME" then f := f ++ [s!"violation the dump of {key}(A) prints symbol names that A never had (result interpreted over another alphabet)"]
+    else
+      let R ← getE (parseTA? v) s!"bad {key}"
+      if key == "cand" then
+        if !(← inclE R A) then f := f ++ ["violation witness (own alphabet) not a sub-language"]
+        if (← emptyE R) && !(← emptyE A) then f := f ++ ["violation witness (own alphabet) empty for a non-empty language"]
+      else if !(← equivE R A) then f := f ++ [s!"violation {key}(A) dumped with its own alphabet and read back by name does not denote L(A)"]
+  pure (f, s!"ownalpha=1 emptyA={bchar (← emptyE A)}")
+
 def checkTrim (args res : List String) : Except String (Findings × String) := do
   let A ← getE (args[0]? >>= parseTA?) "bad A"
   let R1 ← taE res "unreach"
@@ -711,6 +730,7 @@ def dispatch (kind : String) (args res : List String) : Except String (Findings 
   | "mth" => MtHist.check false args res
   | "parse" => ParseChk.check args res
   | "parse2" => ParseChk.check2 args res
+  | "ownalpha" => checkOwnAlpha args res
   | "meta" => MetaChk.check args res
   | "bddincl" => BddChk.checkIncl args res
   | "bddinclall" => BddChk.checkInclAll args res
